@@ -26,6 +26,7 @@ EXPLANATION = (
 )
 
 STR = "_StreamToTestRecord"
+from ..absint import FALSE as FALSE_, TRUE as TRUE_   # noqa: E402
 
 
 def count_on_paths(ctx, func, pred):
@@ -43,6 +44,21 @@ def count_on_paths(ctx, func, pred):
     return g, exp, hit
 
 
+def _record(test_id, status, tags, first, last, files=()):
+    """What on_test must receive for one test: the described _TestRecord."""
+    details = ("kwdict", tuple((name, ("content", ("new", "_make_content_type", (mime,), ()), tuple(chunks))) for name, mime, chunks in files))
+    fields = {"id": test_id, "status": ("const", status), "tags": tags, "timestamps": ("tuple", first, last), "details": details}
+    return ("object", "_TestRecord", tuple(sorted(fields.items())))
+
+
+def _show_report(rep):
+    if isinstance(rep, tuple) and rep[:2] == ("object", "_TestRecord"):
+        d = dict(rep[2])
+        files = [(k, v[2]) for k, v in d.get("details", ("kwdict", ()))[1]] if isinstance(d.get("details"), tuple) else d.get("details")
+        return f"(id={d.get('id')}, status={d.get('status')}, tags={d.get('tags')}, timestamps={d.get('timestamps')}, attachments={files})"
+    return repr(rep)
+
+
 def run(ctx):
     ctx.rule("R-REPORT-REMOVES", "a record is reported only as it is removed from the in-progress table; the table is drained at stopTestRun")
     ctx.rule("R-IGNORE-NO-ID", "events without a test id never touch the table; records are keyed by (test_id, route_code)")
@@ -51,195 +67,254 @@ def run(ctx):
     ctx.rule("R-STATUS-TABLES", "status dispatch is exhaustive")
     ctx.rule("R-WRAPPERS-FORWARD", "consumer wrappers forward each call to their hook exactly once with all arguments")
     classes = ctx.classes
-    m = ctx.repo.module(REAL)
     Q = f"{REAL}:{STR}"
-
-    # ------------------------------------------------------------------ the consumer core, on event histories
-    # One test key is followed through short histories on the abstract record model (rules/recordmodel.py): what is
-    # reported, when, with which fields, and whether the key is gone afterwards -- whatever helpers the code uses.
-    from . import recordmodel as rm
     from ..absint import NONE as A_NONE
-    E = rm.event
-    T, R = ("sym", "T"), ("sym", "R")
+    from . import streamobjects as so
+    E = so.event
+    T, T2 = ("const", "pkg.T"), ("const", "pkg.T2")
     t1, t2, t3 = ("sym", "t1"), ("sym", "t2"), ("sym", "t3")
-    T1, T3, NOTAGS = ("tags", "T1"), ("tags", "T3"), ("tags", "empty")
+    T1, T3, NOTAGS, GIVEN_EMPTY = ("sym", "tags-1"), ("sym", "tags-3"), ("set-of", ()), ("set", ("empty",))
     f_, g_ = ("const", "f"), ("const", "g")
-    b1, b2, c1, nothing = ("bytes", "b1"), ("bytes", "b2"), ("bytes", "c1"), ("bytes", "")
+    b1, b2, c1, nothing = ("const", b"b1"), ("const", b"b2"), ("const", b"c1"), ("const", b"")
+    m1, m2 = ("const", "text/x-one"), ("const", "text/x-two")
+    IP, OK = ("const", "inprogress"), ("const", "success")
 
-    def files(*entries):
-        return ("files", tuple((n_, ("ctype", m_), tuple(ch)) for n_, m_, ch in entries))
-
-    def report(status, tags, first, last, fl=files()):
-        return (T, ("const", status), tags, ("tuple", first, last), fl)
+    def st_(x):
+        return ("const", x)
 
     HISTORIES = [
         ("R-RECORD-UPDATE", "inprogress+tags+chunk; chunk with another mime type; final with new tags",
-         [E(status=("const", "inprogress"), tags=T1, file_name=f_, file_bytes=b1, mime=("const", "m1"), ts=t1),
-          E(file_name=f_, file_bytes=b2, mime=("const", "m2"), ts=t2), E(status=("const", "success"), tags=T3, ts=t3)],
-         [report("success", T3, t1, t3, files((f_, ("const", "m1"), (b1, b2))))],
+         [E(T, status=IP, tags=T1, file_name=f_, file_bytes=b1, mime=m1, ts=t1), E(T, file_name=f_, file_bytes=b2, mime=m2, ts=t2), E(T, status=OK, tags=T3, ts=t3)],
+         [_record(T, "success", T3, t1, t3, [("f", m1, (b1, b2))])],
          "last status, latest tags, (first, reporting) timestamps, chunks in arrival order under the first content type"),
         ("R-REPORT-REMOVES", "a test left in progress is reported at stopTestRun with no end time",
-         [E(status=("const", "inprogress"), tags=T1, ts=t1)], [report("inprogress", T1, t1, A_NONE)],
+         [E(T, status=IP, tags=T1, ts=t1)], [_record(T, "inprogress", T1, t1, A_NONE)],
          "an incomplete test is reported exactly once, when the run stops, with (first timestamp, None)"),
-        ("R-IGNORE-NO-ID", "an event without test id", [E(test_id=A_NONE, status=("const", "success"), ts=t1)], [],
+        ("R-IGNORE-NO-ID", "an event without test id", [E(A_NONE, status=OK, ts=t1)], [],
          "events without a test id create no record and report nothing"),
-        ("R-REPORT-REMOVES", "a single final event", [E(status=("const", "fail"), ts=t1)], [report("fail", NOTAGS, t1, t1)],
+        ("R-REPORT-REMOVES", "a single final event", [E(T, status=st_("fail"), ts=t1)], [_record(T, "fail", NOTAGS, t1, t1)],
          "a test whose first event is final is reported at once, with fresh empty tags and details"),
-        ("R-RECORD-UPDATE", "file-only events", [E(file_name=f_, file_bytes=b1, mime=("const", "m1"), ts=t1)], [report("unknown", NOTAGS, t1, A_NONE, files((f_, ("const", "m1"), (b1,))))],
+        ("R-RECORD-UPDATE", "file-only events", [E(T, file_name=f_, file_bytes=b1, mime=m1, ts=t1)], [_record(T, "unknown", NOTAGS, t1, A_NONE, [("f", m1, (b1,))])],
          "a test that only ever sent attachments is reported as 'unknown' when the run stops"),
-        ("R-RECORD-UPDATE", "an empty chunk", [E(status=("const", "inprogress"), file_name=f_, file_bytes=nothing, mime=("const", "m1"), ts=t1), E(status=("const", "success"), ts=t2)],
-         [report("success", NOTAGS, t1, t2)], "empty chunks add nothing"),
-        ("R-RECORD-UPDATE", "final event without tags after tagged events", [E(status=("const", "inprogress"), tags=T1, ts=t1), E(status=("const", "success"), ts=t2)],
-         [report("success", T1, t1, t2)], "an event that carries no tags keeps the latest tags seen"),
-        ("R-RECORD-UPDATE", "final event with an explicitly empty tag set", [E(status=("const", "inprogress"), tags=T1, ts=t1), E(status=("const", "success"), tags=NOTAGS, ts=t2)],
-         [report("success", NOTAGS, t1, t2)], "an explicit empty tag set replaces earlier tags (only the most recent tags are reported)"),
-        ("R-RECORD-UPDATE", "two attachments", [E(status=("const", "inprogress"), file_name=f_, file_bytes=b1, mime=("const", "m1"), ts=t1),
-                                               E(file_name=g_, file_bytes=c1, mime=("const", "m2"), ts=t2), E(status=("const", "xfail"), ts=t3)],
-         [report("xfail", NOTAGS, t1, t3, files((f_, ("const", "m1"), (b1,)), (g_, ("const", "m2"), (c1,))))], "each file name gets its own attachment with its own content type"),
-        ("R-RECORD-UPDATE", "final event without timestamp", [E(status=("const", "inprogress"), ts=t1), E(status=("const", "success"))],
-         [report("success", NOTAGS, t1, A_NONE)], "the end time is that of the reporting event, also when it carries none"),
-        ("R-REPORT-REMOVES", "interim status None then final", [E(ts=t1), E(status=("const", "skip"), ts=t2)], [report("skip", NOTAGS, t1, t2)],
+        ("R-RECORD-UPDATE", "an empty chunk", [E(T, status=IP, file_name=f_, file_bytes=nothing, mime=m1, ts=t1), E(T, status=OK, ts=t2)],
+         [_record(T, "success", NOTAGS, t1, t2)], "empty chunks add nothing"),
+        ("R-RECORD-UPDATE", "final event without tags after tagged events", [E(T, status=IP, tags=T1, ts=t1), E(T, status=OK, ts=t2)],
+         [_record(T, "success", T1, t1, t2)], "an event that carries no tags keeps the latest tags seen"),
+        ("R-RECORD-UPDATE", "final event with an explicitly empty tag set", [E(T, status=IP, tags=T1, ts=t1), E(T, status=OK, tags=GIVEN_EMPTY, ts=t2)],
+         [_record(T, "success", NOTAGS, t1, t2)], "an explicit empty tag set replaces earlier tags (only the most recent tags are reported)"),
+        ("R-RECORD-UPDATE", "two attachments", [E(T, status=IP, file_name=f_, file_bytes=b1, mime=m1, ts=t1), E(T, file_name=g_, file_bytes=c1, mime=m2, ts=t2), E(T, status=st_("xfail"), ts=t3)],
+         [_record(T, "xfail", NOTAGS, t1, t3, [("f", m1, (b1,)), ("g", m2, (c1,))])], "each file name gets its own attachment with its own content type"),
+        ("R-RECORD-UPDATE", "final event without timestamp", [E(T, status=IP, ts=t1), E(T, status=OK)],
+         [_record(T, "success", NOTAGS, t1, A_NONE)], "the end time is that of the reporting event, also when it carries none"),
+        ("R-REPORT-REMOVES", "interim status None then final", [E(T, ts=t1), E(T, status=st_("skip"), ts=t2)], [_record(T, "skip", NOTAGS, t1, t2)],
          "events without status are interim: nothing is reported until a final status arrives"),
+        ("R-REPORT-REMOVES", "events after the final one start a new record", [E(T, status=OK, ts=t1), E(T, status=st_("fail"), ts=t2)],
+         [_record(T, "success", NOTAGS, t1, t1), _record(T, "fail", NOTAGS, t2, t2)], "a reported test is gone from the table: what follows under the same id is a new test, reported once more, separately"),
+        ("R-IGNORE-NO-ID", "the same id under two route codes", [E(T, status=IP, ts=t1, route=("const", "R1")), E(T, status=OK, ts=t2, route=("const", "R2"))],
+         [_record(T, "success", NOTAGS, t2, t2), _record(T, "inprogress", NOTAGS, t1, A_NONE)], "records are keyed by (test_id, route_code): the same id arriving under another route code is another test"),
     ]
+    core = classes.get(REAL, STR)
     cons_status = own_method(ctx, REAL, STR, "status")
+
+    def run_history(cls, ctor_pos, hist, stop=True, accepting=()):
+        dom = so.StreamDomain(classes, accepting=accepting or ("decorated",))
+        d = so.Driver(ctx, cls, dom)
+        runs = d.construct(ctor_pos)
+        runs = d.call(runs, "startTestRun")
+        for ev in hist:
+            runs = d.call(runs, "status", kw=ev)
+        if stop:
+            runs = d.call(runs, "stopTestRun")
+        d.done()
+        return d, runs
+
+    def table_left(r):
+        """Records still in a dict attribute of the consumer (or of its hook) after the run."""
+        from ..absint import unbox_deep
+        left = []
+        for k, v in r.state.items:
+            if k.endswith("._inprogress") or k == "self._inprogress":
+                v = unbox_deep(v, r.state)
+                if isinstance(v, tuple) and v[:1] == ("kwdict",):
+                    left.extend(v[1])
+        return left
+
     for rule, name, hist, want, what in HISTORIES:
-        states, lost = rm.run_history(ctx, hist)
+        d, runs = run_history(core, [so.ON_TEST], hist)
         problems = set()
-        if not states:
-            problems.add("no path of the consumer returns normally on this history")
-        for s_ in states:
-            reps = s_.get("ev.reports", ())
-            got = [r_[1:6] for r_ in reps]
-            if s_.get("ev.problem", None):
-                problems.add(s_.get("ev.problem"))
-            if got != want:
-                problems.add(f"reported {[(g[1], g[2], g[3], g[4]) for g in got]}; expected {[(w[1], w[2], w[3], w[4]) for w in want]}")
-            if any(r_[6] != "record" for r_ in reps):
-                problems.add("on_test does not receive the record")
-            if any(r_[7] for r_ in reps):
-                problems.add("a record is reported while its key is still in the in-progress table (it would be reported again)")
-            if s_.get("tbl", False):
-                problems.add("the key is still in the in-progress table after stopTestRun")
-            if s_.get("ev.replaced_file", 0):
-                problems.add("an attachment already received is replaced by a new content object")
-        ctx.check(rule, f"history: {name}", cons_status, not problems, f"{what}: " + "; ".join(sorted(problems)), examined=len(states),
-                  construct=f"{Q}::history {name}")
-    # several tests in progress when the run stops: all of them are reported, none is left behind
-    states, _ = rm.run_history(ctx, [E(status=("const", "inprogress"), ts=t1)], others=True)
-    problems = set()
-    for s_ in states:
-        if s_.get("tbl", False) or s_.get("others", False):
-            problems.add("tests are still in the in-progress table after stopTestRun: they are never reported")
-        if len(s_.get("ev.reports", ())) != 1 or s_.get("ev.other_reports", 0) < 1:
-            problems.add(f"{len(s_.get('ev.reports', ()))} report(s) for the followed test and {s_.get('ev.other_reports', 0)} for the others")
-    ctx.check("R-REPORT-REMOVES", "history: several tests in progress at stopTestRun are all reported and removed", cons_status, bool(states) and not problems,
-              "; ".join(sorted(problems)) or "no path returns", examined=len(states), construct=f"{Q}::history drain-all")
-    # the table key distinguishes route codes
-    states, _ = rm.run_history(ctx, [E(status=("const", "inprogress"), ts=t1)], stop=False)
-    keys = {s_.get("ev.key", None) for s_ in states}
-    ctx.check("R-IGNORE-NO-ID", "records are keyed by (test_id, route_code)", cons_status, keys == {("tuple", T, R)},
-              f"the in-progress table is keyed by {sorted(map(repr, keys))}: tests with the same id arriving under different route codes would be merged", construct=f"{Q}::key")
-    interim = module_const_set(m, "INTERIM_STATES")
-    ctx.check("R-REPORT-REMOVES", "INTERIM_STATES = {None, 'inprogress'}", None, interim == frozenset([None, "inprogress"]), f"INTERIM_STATES is {interim}", construct=f"{REAL}::INTERIM_STATES")
-    rec_cls = classes.get(REAL, "_TestRecord")
-    td = rec_cls.own_method("to_dict")
-    keys_ = set()
-    if td is not None:
-        for n in ast.walk(td):
-            if isinstance(n, ast.Dict):
-                keys_ |= {k.value for k in n.keys if isinstance(k, ast.Constant)}
-    ctx.check("R-RECORD-UPDATE", "to_dict exposes id, tags, details, status, timestamps", td if td is not None else rec_cls.node, keys_ >= {"id", "tags", "details", "status", "timestamps"},
-              f"to_dict keys {sorted(keys_)}", construct=f"{REAL}:_TestRecord.to_dict::keys")
-
-    # ------------------------------------------------------------------ summary count
-    gt_ = own_method(ctx, REAL, "StreamSummary", "_gather_test")
-    from .. import effects
-    ss_cls = classes.get(REAL, "StreamSummary")
-    rec_param = gt_.args.args[1].arg
-    count_problems, disp_problems = [], []
-    for status in ("exists", "success", "skip", "fail", "xfail", "uxsuccess", "unknown", "inprogress"):
-        dom_ = effects.EffectDomain(classes, attrs={f"{rec_param}.status": ("const", status)}, track_stores={"self.testsRun"},
-                                    results={f"{rec_param}.to_test_case": [("case",)]})
-        for r in effects.run(ctx, dom_, gt_, ss_cls, {rec_param: ("arg", "record")}):
-            if r.kind != "val":
-                count_problems.append(f"status {status!r}: raises {r.value!r}")
+        if not runs:
+            problems.add("no path of the consumer returns on this history")
+        for r in runs:
+            if r.kind == "exc":
+                problems.add(f"the consumer raises {r.value!r}")
                 continue
-            stores = [e for e in effects.calls(r) if e[0] == "store:self.testsRun"]
-            disp = [e for e in effects.calls(r) if e[0] == "dispatch:self._handle_status"]
-            if len(stores) != (0 if status == "exists" else 1):
-                count_problems.append(f"status {status!r}: testsRun is written {len(stores)} time(s)")
-            if status == "exists":
-                if disp:
-                    disp_problems.append("an 'exists' record is handed to a bucket handler")
-            elif len(disp) != 1 or disp[0][1][0] != ("const", status) or disp[0][1][1:] != (("case",),):
-                disp_problems.append(f"status {status!r}: bucket dispatches {[(e[1][0], e[1][1:]) for e in disp]} (expected one, keyed by the record's status, with the test case)")
-    incs = [n for n in ast.walk(gt_) if isinstance(n, ast.AugAssign) and dotted(n.target) == "self.testsRun"]
-    inc_ok = all(isinstance(n.op, ast.Add) and isinstance(n.value, ast.Constant) and n.value.value == 1 for n in incs) and bool(incs)
-    ctx.check("R-SUMMARY-COUNT", "'exists' records are not counted; every other record adds exactly one to testsRun", gt_, not count_problems and inc_ok,
-              "testsRun is not incremented exactly once for every record whose status is not 'exists': " + "; ".join(sorted(set(count_problems))), construct=f"{REAL}:StreamSummary._gather_test::count")
-    ctx.check("R-SUMMARY-COUNT", "exactly one bucket handler, chosen by the record's status", gt_, not disp_problems,
-              "; ".join(sorted(set(disp_problems))), construct=f"{REAL}:StreamSummary._gather_test::dispatch")
-    hs, hs_node = handle_status_table(ctx)
+            reps = r.state.get("ev.reports", ())
+            if any(len(pos) != 1 or kw for pos, kw in reps):
+                problems.add("on_test is not called with exactly the record")
+            got = [pos[0] if pos else None for pos, kw in reps]
+            if got != want:
+                problems.add(f"reported {[_show_report(g) for g in got]}; expected {[_show_report(w) for w in want]}")
+            if r.state.get("ev.reported_while_tabled", 0):
+                problems.add("a record is reported while its key is still in the in-progress table (it would be reported again)")
+            if table_left(r):
+                problems.add("the in-progress table is not empty after stopTestRun")
+        ctx.check(rule, f"history: {name}", cons_status, not problems, f"{what}: " + "; ".join(sorted(problems)), examined=len(runs), construct=f"{Q}::history {name}")
+    # several tests in progress when the run stops: all of them are reported, none is left behind
+    d, runs = run_history(core, [so.ON_TEST], [E(T, status=IP, ts=t1), E(T2, status=IP, ts=t2)])
+    problems = set()
+    for r in runs:
+        if r.kind == "exc":
+            problems.add(f"the consumer raises {r.value!r}")
+            continue
+        got = sorted(repr(pos[0]) for pos, kw in r.state.get("ev.reports", ()) if pos)
+        if got != sorted(repr(x) for x in (_record(T, "inprogress", NOTAGS, t1, A_NONE), _record(T2, "inprogress", NOTAGS, t2, A_NONE))):
+            problems.add(f"with two tests in progress at stopTestRun the reports are {[_show_report(pos[0]) for pos, kw in r.state.get('ev.reports', ()) if pos]}")
+        if table_left(r):
+            problems.add("tests are still in the in-progress table after stopTestRun: they are never reported")
+    ctx.check("R-REPORT-REMOVES", "history: several tests in progress at stopTestRun are all reported and removed", cons_status, bool(runs) and not problems,
+              "; ".join(sorted(problems)) or "no path returns", examined=len(runs), construct=f"{Q}::history drain-all")
+
+    # ------------------------------------------------------------------ StreamToDict: the same accounting, reported as test dicts
+    s2d = classes.get(REAL, "StreamToDict")
+    d, runs = run_history(s2d, [so.ON_TEST], [E(T, status=IP, tags=T1, file_name=f_, file_bytes=b1, mime=m1, ts=t1), E(T2, status=IP, ts=t2), E(T, status=OK, ts=t3)])
+    problems = set()
+    for r in runs:
+        if r.kind == "exc":
+            problems.add(f"StreamToDict raises {r.value!r}")
+            continue
+        reps = [pos[0] if len(pos) == 1 and not kw else None for pos, kw in r.state.get("ev.reports", ())]
+        want = []
+        for rec in (_record(T, "success", T1, t1, t3, [("f", m1, (b1,))]), _record(T2, "inprogress", NOTAGS, t2, A_NONE)):
+            fields = dict(rec[2])
+            fields["timestamps"] = ("tuple",) + tuple(fields["timestamps"][1:])
+            want.append(fields)
+        got = [dict(x[1]) if isinstance(x, tuple) and x[:1] == ("kwdict",) else x for x in reps]
+        if got != want:
+            problems.add(f"on_test receives {reps!r}; expected one test dict (id, tags, details, status, timestamps) per test, when it completes or when the run stops")
+    ctx.check("R-WRAPPERS-FORWARD", "StreamToDict reports each test once as a test dict: startTestRun / status / stopTestRun reach its record keeper with all arguments", s2d.node,
+              bool(runs) and not problems, "; ".join(sorted(problems)) or "no path returns", examined=len(runs), construct=f"{REAL}:StreamToDict::end-to-end")
+
+    # ------------------------------------------------------------------ StreamSummary: counts and buckets
     ss = classes.get(REAL, "StreamSummary")
-    bucket = {"_fail": {"errors"}, "_incomplete": {"errors"}, "_skip": {"skipped"}, "_xfail": {"expectedFailures"}, "_uxsuccess": {"unexpectedSuccesses"}, "_success": set(), "_exists": set()}
-    from .c04 import self_attrs_loaded, self_lists_appended
-    for h, want_lists in sorted(bucket.items()):
-        f = ss.own_method(h)
-        if f is None:
-            raise AnalysisError(f"anchor vanished: StreamSummary.{h}")
-        got = self_lists_appended(f)
-        ctx.check("R-SUMMARY-COUNT", f"StreamSummary.{h} appends to {sorted(want_lists) or 'nothing'}", f, got == want_lists,
-                  f"{h} appends to {sorted(got)}", construct=f"{REAL}:StreamSummary.{h}::bucket")
-    want_map = {"success": "_success", "skip": "_skip", "exists": "_exists", "fail": "_fail", "xfail": "_xfail", "uxsuccess": "_uxsuccess", "unknown": "_incomplete", "inprogress": "_incomplete"}
-    ctx.check("R-SUMMARY-COUNT", "status -> bucket table is the documented one", hs_node, hs == want_map, f"_handle_status is {hs}", construct=f"{REAL}:StreamSummary._handle_status::map")
-    ws = ss.own_method("wasSuccessful")
-    read = self_attrs_loaded(ws)
-    ctx.check("R-SUMMARY-COUNT", "wasSuccessful reads the lists failed / incomplete records go to", ws, bucket["_fail"] | bucket["_incomplete"] <= read,
-              f"wasSuccessful reads {sorted(read)}; failed and incomplete tests go to {sorted(bucket['_fail'] | bucket['_incomplete'])}", construct=f"{REAL}:StreamSummary.wasSuccessful::reads")
+    statuses = ["success", "skip", "exists", "fail", "xfail", "uxsuccess"]
+    ids = {s_: ("const", f"pkg.T_{s_}") for s_ in statuses + ["inprogress", "unknown"]}
+    hist = [E(ids[s_], status=st_(s_), ts=t1) for s_ in statuses] + [E(ids["inprogress"], status=IP, ts=t1), E(ids["unknown"], file_name=f_, file_bytes=b1, mime=m1, ts=t1)]
+    d, runs = run_history(ss, [], hist)
+    want_buckets = {"failures": [], "errors": ["fail", "inprogress", "unknown"], "skipped": ["skip"], "expectedFailures": ["xfail"], "unexpectedSuccesses": ["uxsuccess"]}
+    count_problems, bucket_problems, table_problems = set(), set(), set()
 
-    # ------------------------------------------------------------------ status tables (exhaustiveness, shared)
-    s2m, smap_node = status_map(ctx)
-    finals = module_const_set(m, "FINAL_STATES")
-    ctx.check("R-STATUS-TABLES", "every final state plus 'inprogress' has a bucket", hs_node, finals is not None and (finals | {"inprogress"}) <= set(hs),
-              f"states without a bucket: {sorted((finals or frozenset()) | {'inprogress'} - set(hs))}", construct=f"{REAL}:StreamSummary._handle_status::exhaustive")
-    ctx.check("R-STATUS-TABLES", "every replayable status has an outcome method", smap_node, finals is not None and ((finals | {"inprogress"}) - {"exists"}) <= set(s2m),
-              "a status cannot be replayed", construct=f"{REAL}:_status_map::exhaustive")
-    sted = own_method(ctx, REAL, "StreamToExtendedDecorator", "status")
-    ok = any(isinstance(n, ast.If) and norm(n.test).replace('"', "'") == "test_status == 'exists'" and isinstance(n.body[0], ast.Return) for n in sted.body)
-    ctx.check("R-STATUS-TABLES", "StreamToExtendedDecorator ignores 'exists' events (no outcome method for them)", sted, ok, "'exists' events would reach _status_map and raise KeyError", construct=f"{REAL}:StreamToExtendedDecorator.status::exists")
+    def case_ids(v):
+        out = []
+        for el in (v[1:] if isinstance(v, tuple) and v[:1] == ("tuple",) else ()):
+            obj = el[1] if isinstance(el, tuple) and el[:1] == ("tuple",) and len(el) > 1 else el
+            fields = dict(obj[2]) if isinstance(obj, tuple) and obj[:2] == ("object", "PlaceHolder") else {}
+            out.append(next((k for k, i in ids.items() if fields.get("_test_id") == i), repr(obj)[:60]))
+        return out
 
-    # ------------------------------------------------------------------ wrappers forward
-    hooks = {"StreamToDict": "self._hook", "StreamSummary": "self._hook", "StreamToExtendedDecorator": "self.hook"}
-    for cname, hook in hooks.items():
-        c = classes.get(REAL, cname)
-        for meth in ("startTestRun", "status", "stopTestRun"):
-            f = c.own_method(meth)
-            if f is None:
-                raise AnalysisError(f"anchor vanished: {cname}.{meth}")
-            g4, exp, hit = count_on_paths(ctx, f, lambda call, meth=meth: dotted(call.func) == f"{hook}.{meth}")
-            counts = exp.states_at(g4.exit_return)
-            allowed = {1}
-            if cname == "StreamToExtendedDecorator" and meth == "status":
-                allowed = {0, 1}  # 'exists' events are dropped by design (checked above)
-            ok = counts <= allowed and 1 in counts
-            argok = True
-            for nid in hit:
-                for call in node_calls(g4.nodes[nid]):
-                    if dotted(call.func) == f"{hook}.{meth}" and meth == "status":
-                        va, kw = f.args.vararg, f.args.kwarg
-                        named = [a.arg for a in f.args.args[1:]]
-                        argok = (va is not None and any(isinstance(a, ast.Starred) and dotted(a.value) == va.arg for a in call.args)) and (
-                            kw is not None and any(k.arg is None and dotted(k.value) == kw.arg for k in call.keywords)) and all(
-                            any(k.arg == p and dotted(k.value) == p for k in call.keywords) or any(dotted(a) == p for a in call.args) for p in named)
-            ctx.check("R-WRAPPERS-FORWARD", f"{cname}.{meth} -> {hook}.{meth} exactly once", f, ok and argok,
-                      f"hook call count on returning paths {sorted(counts)}; all arguments passed: {argok}", examined=exp.size, construct=f"{REAL}:{cname}.{meth}::forward")
-    for cname, cb in (("StreamToDict", "self._handle_test"), ("StreamSummary", "self._gather_test"), ("StreamToExtendedDecorator", "self._handle_tests")):
-        init = own_method(ctx, REAL, cname, "__init__")
-        ok = any(isinstance(cc, ast.Call) and dotted(cc.func) == STR and cc.args and dotted(cc.args[0]) == cb for cc in ast.walk(init))
-        ctx.check("R-WRAPPERS-FORWARD", f"{cname}'s hook reports to {cb}", init, ok, f"{cname} no longer builds _StreamToTestRecord({cb})", construct=f"{REAL}:{cname}.__init__::hook")
-    ht = own_method(ctx, REAL, "StreamToDict", "_handle_test")
-    ok = [norm(c) for c in walk_shallow(ht, include_self=False) if isinstance(c, ast.Call)] == ["self.on_test(test_record.to_dict())", "test_record.to_dict()"]
-    ctx.check("R-WRAPPERS-FORWARD", "StreamToDict reports each record once as a test dict", ht, ok, "StreamToDict._handle_test changed", construct=f"{REAL}:StreamToDict._handle_test::once")
+    for r in runs:
+        if r.kind == "exc":
+            table_problems.add(f"the summary raises {r.value!r} on a stream that uses every status")
+            continue
+        for got in d.read([r], "testsRun"):
+            if got.kind != "val" or got.value != ("const", 7):
+                count_problems.add(f"after 8 tests, one of them merely announced ('exists'), testsRun is {got.value!r}; expected 7")
+        for name, want in want_buckets.items():
+            for got in d.read([r], name):
+                seen = sorted(case_ids(d.describe(got))) if got.kind == "val" else None
+                if seen != sorted(want):
+                    bucket_problems.add(f"{name} holds the tests {seen}; expected {sorted(want)}")
+        for got in d.call([r], "wasSuccessful"):
+            if got.kind != "val" or got.value != FALSE_:
+                bucket_problems.add(f"wasSuccessful() is {got.value!r} after a failed and two incomplete tests")
+    ctx.check("R-SUMMARY-COUNT", "'exists' records are not counted; every other record adds exactly one to testsRun", ss.node, bool(runs) and not count_problems and not table_problems,
+              "; ".join(sorted(count_problems | table_problems)) or "no path returns", examined=len(runs), construct=f"{REAL}:StreamSummary._gather_test::count")
+    ctx.check("R-SUMMARY-COUNT", "every test lands in exactly the list its status names (none for success / exists); failed and incomplete tests make wasSuccessful() false", ss.node,
+              bool(runs) and not bucket_problems, "; ".join(sorted(bucket_problems)), examined=len(runs), construct=f"{REAL}:StreamSummary._gather_test::dispatch")
+    ctx.check("R-STATUS-TABLES", "every status a stream can carry (and the 'unknown' of attachment-only tests) is handled by the summary", ss.node, bool(runs) and not table_problems,
+              "; ".join(sorted(table_problems)), examined=len(runs), construct=f"{REAL}:StreamSummary._handle_status::exhaustive")
+    d, runs = run_history(ss, [], [E(T, status=IP, ts=t1), E(T, status=OK, ts=t2), E(T2, status=st_("skip"), ts=t2), E(ids["exists"], status=st_("exists"), ts=t1)])
+    problems = set()
+    for r in runs:
+        if r.kind == "exc":
+            problems.add(f"the summary raises {r.value!r}")
+            continue
+        for got in d.call([r], "wasSuccessful"):
+            if got.kind != "val" or got.value != TRUE_:
+                problems.add(f"wasSuccessful() is {got.value!r} after a passed and a skipped test")
+        for got in d.read([r], "testsRun"):
+            if got.kind != "val" or got.value != ("const", 2):
+                problems.add(f"testsRun is {got.value!r} after two tests (one reported by two events) and one announcement")
+    ctx.check("R-SUMMARY-COUNT", "a run of passing and skipped tests is successful and counts each test once", ss.node, bool(runs) and not problems, "; ".join(sorted(problems)) or "no path returns",
+              examined=len(runs), construct=f"{REAL}:StreamSummary::success")
+
+    # ------------------------------------------------------------------ StreamToExtendedDecorator: one bracket per test on the decorated result
+    sted = classes.get(REAL, "StreamToExtendedDecorator")
+    want_outcome = {"success": "addSuccess", "skip": "addSkip", "fail": "addFailure", "xfail": "addExpectedFailure", "uxsuccess": "addUnexpectedSuccess", "inprogress": "addFailure", "unknown": "addFailure"}
+    d, runs = run_history(sted, [("wobj", "decorated")], hist)
+    problems, table_problems = set(), set()
+    for r in runs:
+        if r.kind == "exc":
+            table_problems.add(f"StreamToExtendedDecorator raises {r.value!r} on a stream that uses every status")
+            continue
+        calls_ = so.logged(r, "decorated.")
+        starts = [c_ for c_ in calls_ if c_[0] == "startTest"]
+        outcomes = [c_ for c_ in calls_ if c_[0].startswith("add")]
+        started = []
+        for c_ in starts:
+            obj = d.dom.describe(d.it, c_[1][0], r.state, d.fr) if c_[1] else None
+            fields = dict(obj[2]) if isinstance(obj, tuple) and obj[:2] == ("object", "PlaceHolder") else {}
+            started.append(next((k for k, i in ids.items() if fields.get("_test_id") == i), "?"))
+        if sorted(started) != sorted(want_outcome):
+            problems.add(f"the decorated result sees startTest for {sorted(started)}; expected each of {sorted(want_outcome)} exactly once ('exists' announcements are not tests)")
+        got_oc = sorted(c_[0] for c_ in outcomes)
+        if got_oc != sorted(want_outcome.values()):
+            problems.add(f"the outcomes replayed are {got_oc}; expected {sorted(want_outcome.values())}")
+        if len([c_ for c_ in calls_ if c_[0] == "stopTest"]) != len(starts):
+            problems.add("startTest / stopTest are not paired on the decorated result")
+    # nothing of an event is lost on the way through the wrappers: positional arguments, attachments, tags and times arrive
+    REAL_TAGS = ("set", ("copy", ("tuple", ("const", "tag-1"))))
+    d, runs = run_history(sted, [("wobj", "decorated")], [E(T, status=IP, tags=REAL_TAGS, file_name=f_, file_bytes=b1, mime=m1, ts=t1), E(T, status=OK, ts=t3)])
+    for r in runs:
+        if r.kind == "exc":
+            problems.add(f"StreamToExtendedDecorator raises {r.value!r}")
+            continue
+        calls_ = so.logged(r, "decorated.")
+        times = [c_[1] for c_ in calls_ if c_[0] == "time"]
+        if times != [(t1,), (t3,)]:
+            problems.add(f"the decorated result is told the times {times}; expected the first and the last timestamp of the test's events")
+        def plain(v):
+            while isinstance(v, tuple) and ((v[:1] == ("set",) and len(v) == 2) or (v[:1] == ("copy",) and len(v) == 2)):
+                v = v[1]
+            return v
+        tagged = [d.dom._set_elements(c_[1][0]) for c_ in calls_ if c_[0] == "tags" and c_[1]]
+        if tagged[:1] != [[("const", "tag-1")]]:
+            problems.add(f"the tags of the test do not reach the decorated result (tags calls: {[c_[1] for c_ in calls_ if c_[0] == 'tags']})")
+        for c_ in calls_:
+            if c_[0] == "addSuccess":
+                det = d.dom.describe(d.it, dict(c_[2]).get("details"), r.state, d.fr)
+                got_files = {k: v[2] for k, v in det[1]} if isinstance(det, tuple) and det[:1] == ("kwdict",) else det
+                if got_files != {"f": (b1,)}:
+                    problems.add(f"the outcome is replayed with the attachments {got_files!r}; expected the chunk received for 'f'")
+    for cls_, ctor in ((ss, []), (s2d, [so.ON_TEST]), (sted, [("wobj", "decorated")])):
+        dom = so.StreamDomain(classes, accepting=("decorated",))
+        d2 = so.Driver(ctx, cls_, dom)
+        runs2 = d2.call(d2.construct(ctor), "startTestRun")
+        runs2 = d2.call(runs2, "status", pos=[T, OK], kw=[("timestamp", t1)])   # test_id and test_status given positionally
+        runs2 = d2.call(runs2, "stopTestRun")
+        d2.done()
+        for r in runs2:
+            if r.kind == "exc":
+                problems.add(f"{cls_.name}.status(test_id, test_status) with positional arguments raises {r.value!r}")
+            elif cls_ is s2d and len(r.state.get("ev.reports", ())) != 1:
+                problems.add("StreamToDict loses an event whose test id is given positionally")
+            elif cls_ is sted and not any(c_[0] == "addSuccess" for c_ in so.logged(r, "decorated.")):
+                problems.add("StreamToExtendedDecorator loses an event whose test id is given positionally")
+            elif cls_ is ss and any(g.kind != "val" or g.value != ("const", 1) for g in d2.read([r], "testsRun")):
+                problems.add("StreamSummary loses an event whose test id is given positionally")
+    ctx.check("R-WRAPPERS-FORWARD", "StreamToExtendedDecorator replays every test exactly once on the decorated result, when it completes or when the run stops", sted.node,
+              bool(runs) and not problems and not table_problems, "; ".join(sorted(problems | table_problems)) or "no path returns", examined=len(runs), construct=f"{REAL}:StreamToExtendedDecorator::end-to-end")
+    ctx.check("R-STATUS-TABLES", "every replayable status has an outcome method; 'exists' events are ignored", sted.node, bool(runs) and not table_problems,
+              "; ".join(sorted(table_problems)), examined=len(runs), construct=f"{REAL}:_status_map::exhaustive")
     ctx.assume("dict.pop / popitem remove what they return")
 
 
